@@ -36,7 +36,8 @@ ASSUMPTIONS = ["counts are non-negative integers or dyadic rationals stored as f
                "the oracle never uses this scaling: it works on the float/Fraction values directly",
                "trans_only needs >= 2 chromosomes; max_iters >= 1",
                "float results are compared with the exact-rational model at 1e-9 relative; runs whose tested variance is within 1e-6 relative of tol are skipped and counted"]
-RESIDUE = ["float rounding, overflow to inf, accuracy of np.median/np.var/np.log/np.exp (exact-arithmetic model)",
+RESIDUE = ["a one-line headerless blacklist BED aborts with ValueError before balancing (csv.Sniffer takes the only line for a header); outside the claim: the generator emits BED files with >= 2 data lines or an explicit header",
+           "float rounding, overflow to inf, accuracy of np.median/np.var/np.log/np.exp (exact-arithmetic model)",
            "sqrt of the rescaling step: theorem stated for every w with w_i^2 * scale = b_i^2"]
 
 SIG_D15 = "trans-only-unequal-chrom-bins-rowsum"
@@ -411,6 +412,253 @@ def audit(ctx, tmp, counters):
     cli_case("--cis-only --trans-only", base + ["--cis-only", "--trans-only", "--name", "both"],
              lambda code, out: True if code != 0 and column("both") is None else ("exit/col", code))
 
+# ---------------------------------------------------------------------------------------------------------
+# `cooler balance` grid: every CLI option, random combinations; the stored column is compared with the dense
+# reference (weights, NaN set = exactly the documented filters) and its NaN set with the model.
+# Blacklist oracle: a BED region [start, end) excludes exactly the bins that OVERLAP it (half-open on both sides).
+BIN = 10
+
+
+def random_bed(rng, per):
+    """BED regions (chrom index, start, end): ending inside a bin / exactly on a bin edge / at the chromosome end /
+    whole chromosome / tail of one chromosome + head of the next / several"""
+    regs = []
+
+    def one(c):
+        L = per[c] * BIN
+        kind = rng.choice(["inside", "edge_end", "edge_both", "chrom_end", "whole", "start_edge"])
+        if kind == "whole":
+            return [c, 0, L]
+        a = rng.randrange(per[c])
+        b = rng.randrange(a, per[c])
+        if kind == "inside":
+            s_, e_ = a * BIN + rng.randint(1, BIN - 1), b * BIN + rng.randint(1, BIN - 1)
+            if s_ >= e_:
+                s_, e_ = a * BIN + 1, b * BIN + BIN - 1
+        elif kind == "edge_end":
+            s_, e_ = a * BIN + rng.randint(0, BIN - 1), (b + 1) * BIN
+        elif kind == "edge_both":
+            s_, e_ = a * BIN, (b + 1) * BIN
+        elif kind == "start_edge":
+            s_, e_ = a * BIN, b * BIN + rng.randint(1, BIN - 1)
+        else:
+            s_, e_ = a * BIN + rng.randint(0, BIN - 1), L
+        return [c, s_, e_]
+    k = rng.choice([1, 2, 2, 3])
+    for _ in range(k):
+        regs.append(one(rng.randrange(len(per))))
+    if len(per) >= 2 and rng.random() < 0.35:          # spanning a chromosome boundary: two lines
+        c = rng.randrange(len(per) - 1)
+        regs.append([c, (per[c] - 1) * BIN + rng.choice([0, 4]), per[c] * BIN])
+        regs.append([c + 1, 0, rng.choice([BIN, BIN - 3, BIN + 2 if per[c + 1] > 1 else BIN])])
+    return regs
+
+
+def overlap_bins(per, regs):
+    off = G.offsets_of(per)
+    out = set()
+    for c, s_, e_ in regs:
+        for k in range(per[c]):
+            if k * BIN < e_ and s_ < (k + 1) * BIN:
+                out.add(off[c] + k)
+    return sorted(out)
+
+
+def grid_effective(case):
+    """the option vector the CLI run is documented to use"""
+    o = dict(case["o"])
+    if case.get("ignore_dist") is not None:
+        o["diags"] = max(o["diags"], -(-case["ignore_dist"] // BIN))
+    o["black"] = overlap_bins(case["per"], case["bed"]) if case.get("bed") else None
+    o["rescale"] = True
+    o["x0"] = None
+    return o
+
+
+def grid_args(case, bedpath):
+    o = case["o"]
+    a = ["--ignore-diags", str(o["diags"]), "--mad-max", str(o["mad"]), "--min-nnz", str(o["nnz"]), "--min-count", str(o["count"]),
+         "--tol", repr(o["tol"]), "--max-iters", str(o["iters"]), "--convergence-policy", case["policy"]]
+    if o["cis"]:
+        a.append("--cis-only")
+    if o["trans"]:
+        a.append("--trans-only")
+    if case.get("ignore_dist") is not None:
+        a += ["--ignore-dist", str(case["ignore_dist"])]
+    if case.get("bed"):
+        a += ["--blacklist", str(bedpath)]
+    if case.get("name"):
+        a += ["--name", case["name"]]
+    if case.get("nproc", 1) > 1:
+        a += ["-p", str(case["nproc"])]
+    if case.get("chunk") is not None:
+        a += ["-c", str(case["chunk"])]
+    if case.get("stdout"):
+        a.append("--stdout")
+    return a
+
+
+def grid_one(case, tmp):
+    """run one grid case on the implementation; returns (True | failure detail, stored weights or None)"""
+    import h5py
+    from click.testing import CliRunner
+    from cooler.cli import cli
+    per, pixels = case["per"], case["pixels"]
+    n = sum(per)
+    path = tmp / "grid.cool"
+    G.build_cooler(path, per, pixels)
+    runner = CliRunner()
+    name = case.get("name") or "weight"
+    names = G.chroms_of(per)
+    bed = tmp / "grid.bed"
+    if case.get("bed"):
+        lines = [f"c{c}\t{s_}\t{e_}\n" for c, s_, e_ in case["bed"]]
+        bed.write_text(("chrom\tstart\tend\n" if case.get("header") else "") + "".join(lines))
+    oe = grid_effective(case)
+    F = G.dense_int(n, pixels)
+    b0, ties = G.ref_masks(oe, per, F)
+    groups = G.ref_loop_float(oe, per, F, b0)
+    if ties or G.near_tol(groups, oe["tol"]):
+        return "fragile", None
+    wref = G.assemble(n, groups, True)
+    conv = all(g["var"] < oe["tol"] for g in groups)
+
+    def column():
+        with h5py.File(path, "r") as h5:
+            if name not in h5["bins"]:
+                return None
+            return np.array(h5["bins"][name][:], dtype=float), dict(h5["bins"][name].attrs)
+
+    def go():
+        pre_w = None
+        if case.get("pre"):
+            # an existing column of that name (other options): kept without --force, replaced with it
+            r0 = runner.invoke(cli, ["balance", "--ignore-diags", "0", "--mad-max", "0", "--min-nnz", "0", "--name", name, str(path)])
+            if r0.exit_code != 0 or column() is None:
+                return {"what": "preparatory run failed", "exit": r0.exit_code}, None
+            pre_w = column()[0]
+        args = grid_args(case, bed)
+        if case.get("pre") == "noforce":
+            res = runner.invoke(cli, ["balance"] + args + [str(path)])
+            c = column()
+            if res.exit_code == 0 or c is None or not np.array_equal(c[0], pre_w, equal_nan=True):
+                return {"what": "existing column without --force must be kept and the command must fail", "exit": res.exit_code}, None
+            return True, None
+        if case.get("pre"):
+            args = args + ["--force"]
+        res = runner.invoke(cli, ["balance"] + args + [str(path)])
+        pol = case["policy"]
+        if conv or pol == "store_final":
+            exp = wref
+        elif pol == "store_nan":
+            exp = np.full(n, np.nan)
+        else:
+            exp = None
+        exp_exit = 1 if (not conv and pol == "error") else 0
+        if res.exit_code != exp_exit:
+            return {"what": "exit code", "exit": res.exit_code, "expected": exp_exit,
+                    "exception": repr(res.exception)[:200]}, None
+        c = column()
+        if case.get("stdout"):
+            if c is not None:
+                return {"what": "--stdout stored a column"}, None
+            if exp is None:
+                return True, None
+            toks = res.output.split("\n")[-n:]          # NaN is printed as an empty line; no trailing newline
+            try:
+                vals = np.array([float("nan") if t.strip() == "" else float(t) for t in toks])
+            except ValueError:
+                return {"what": "--stdout output", "out": res.output[-300:]}, None
+            if len(vals) != n or not G.vec_close(vals, exp, 1e-4):
+                return {"what": "--stdout weights", "printed": [None if x != x else float(x) for x in vals],
+                        "expected": [None if x != x else float(x) for x in exp]}, None
+            return True, (vals if (conv or pol == "store_final") else None)
+        if exp is None:
+            return (True, None) if c is None else ({"what": "policy " + pol + " stored a column"}, None)
+        if c is None:
+            return {"what": "no column stored", "policy": pol}, None
+        if not G.vec_close(c[0], exp, 1e-8):
+            return {"what": "stored weights: NaN set / values differ from the documented filters and procedure",
+                    "stored": [None if x != x else float(x) for x in c[0]], "expected": [None if x != x else float(x) for x in exp],
+                    "blacklisted_bins_expected": oe["black"]}, None
+        if bool(np.all(c[1]["converged"])) != conv:
+            return {"what": "converged attribute", "got": str(c[1]["converged"]), "expected": conv}, None
+        chk = runner.invoke(cli, ["balance", "--check", "--name", name, str(path)])
+        if chk.exit_code != 0:
+            return {"what": "--check after storing", "exit": chk.exit_code}, None
+        return True, (c[0] if (conv or pol == "store_final") else None)
+    out = G.with_limit(90.0, go)
+    if isinstance(out, str):
+        return {"what": "crash/timeout", "result": out}, None
+    return out
+
+
+def random_grid_case(rng):
+    per = G.random_per(rng)
+    px = G.random_pixels(rng, per)
+    while len(px) < 2:
+        px = G.random_pixels(rng, per)
+    o = G.random_opts(rng, per)
+    o["count"] = rng.choice([0, 0, 3, 8])                  # --min-count is an integer option
+    o["x0"] = None
+    o["black"] = None
+    o["tol"] = rng.choice([1e-3, 1e-4, 1e-5, 1e-6])
+    o["iters"] = rng.choice([2, 3, 200, 200, 200])
+    case = {"cli_grid": True, "per": per, "pixels": px, "o": o,
+            "policy": rng.choice(["store_final", "store_final", "store_nan", "discard", "error"]),
+            "name": rng.choice([None, None, "w2", "KR_like"]), "nproc": rng.choice([1, 1, 1, 2]),
+            "chunk": rng.choice([None, 1, 3, 7]), "stdout": rng.random() < 0.12,
+            "ignore_dist": rng.choice([None, None, None, 5, 10, 11, 20, 25])}
+    if rng.random() < 0.7:
+        bed = random_bed(rng, per)
+        case["header"] = rng.random() < 0.3
+        if len(bed) < 2 and not case["header"]:
+            bed.append(list(bed[0]))       # a headerless one-line BED is a reported defect (sniffed as header): >= 2 lines
+        case["bed"] = bed
+    if not case["stdout"]:
+        case["pre"] = rng.choice([None, None, None, "force", "noforce"])
+    return case
+
+
+GRID_CORPUS = [
+    # blacklist regions ending exactly on a bin edge: the next bin must stay (seeded defect C10-4)
+    {"cli_grid": True, "per": [4], "pixels": [[i, j, 1 + (i + 2 * j) % 5] for i in range(4) for j in range(i, 4)],
+     "o": mk(diags=1, tol=1e-6), "policy": "store_final", "name": None, "bed": [[0, 10, 20], [0, 10, 20]], "header": False},
+    {"cli_grid": True, "per": [3, 3], "pixels": [[i, j, 2 + (i * j) % 4] for i in range(6) for j in range(i, 6)],
+     "o": mk(diags=0, nnz=1, tol=1e-6), "policy": "store_final", "name": "w2", "bed": [[0, 3, 10], [1, 0, 20]], "header": False},
+    {"cli_grid": True, "per": [3, 3], "pixels": [[i, j, 2 + (i * j) % 4] for i in range(6) for j in range(i, 6)],
+     "o": mk(cis=True, diags=1, tol=1e-6), "policy": "store_final", "name": None, "bed": [[0, 20, 30], [1, 0, 10]], "header": True, "nproc": 2, "chunk": 3},
+    {"cli_grid": True, "per": [5], "pixels": [[i, j, 1 + (3 * i + j) % 6] for i in range(5) for j in range(i, 5)],
+     "o": mk(diags=1, tol=1e-6), "policy": "store_final", "name": None, "bed": [[0, 15, 30]], "header": True},
+    {"cli_grid": True, "per": [2, 3], "pixels": [[i, j, 1 + (i + j) % 3] for i in range(5) for j in range(i, 5)],
+     "o": mk(trans=True, diags=0, tol=1e-3), "policy": "store_final", "name": None, "bed": [[1, 10, 20], [1, 12, 18]], "header": False},
+]
+
+
+def cli_grid(ctx, tmp, rng, counters, thorough, exprs, pend):
+    cases = [dict(c) for c in GRID_CORPUS]
+    want = len(GRID_CORPUS) + (90 if thorough else 22)
+    guard = 0
+    while len(cases) < want and guard < 1000:
+        guard += 1
+        cases.append(random_grid_case(rng))
+    for case in cases:
+        res, w = grid_one(case, tmp)
+        if res == "fragile":
+            counters["grid_fragile"] += 1
+            continue
+        counters["cli_grid"] += 1
+        ctx.case(case, nontrivial=True, kind="cli_grid" + (":bed" if case.get("bed") else ""))
+        if res is not True:
+            ctx.fail(case, res, None)
+            continue
+        if w is not None and not case.get("stdout"):
+            oe = grid_effective(case)
+            om = dict(oe)
+            om["iters"] = 1
+            exprs.append(f"out_res (balance {G.coq_balance_args(om, case['per'], case['pixels'], case.get('chunk'))})")
+            pend.append(("masks", case, ({"w": w}, oe, G.groups_of(oe, case["per"]), False), G.model_den(om, case["pixels"])))
+
 
 def run(ctx):
     import cooler
@@ -437,7 +685,7 @@ def run(ctx):
     exprs = []        # Gallina expressions
     pend = []         # (kind, case, payload) aligned with exprs
     counters = {"near_tol": 0, "mad_tie": 0, "vacuous_bound": 0, "flat_checked": 0, "sweeps_tied": 0, "short_exact": 0,
-                "one_sweep": 0, "store": 0, "cli": 0, "mad_tie_model_skipped": 0, "audit": 0}
+                "one_sweep": 0, "store": 0, "cli": 0, "mad_tie_model_skipped": 0, "audit": 0, "cli_grid": 0, "grid_fragile": 0}
 
     for ci, cs in enumerate(cases):
         per, pixels, o, chunk = cs["per"], cs["pixels"], cs["o"], cs["chunk"]
@@ -624,7 +872,10 @@ def run(ctx):
             bl = tmp / f"bl{ci}.bed"
             off = G.offsets_of(per)
             chrom = G.chroms_of(per)
-            bl.write_text("".join(f"c{chrom[i]}\t{(i - off[chrom[i]]) * 10}\t{(i - off[chrom[i]]) * 10 + 10}\n" for i in o["black"]))
+            lines = [f"c{chrom[i]}\t{(i - off[chrom[i]]) * 10}\t{(i - off[chrom[i]]) * 10 + 10}\n" for i in o["black"]]
+            if len(lines) == 1:
+                lines = lines * 2          # a headerless one-line BED is a reported defect (csv.Sniffer takes it for a header)
+            bl.write_text("".join(lines))
             args += ["--blacklist", str(bl)]
         case = {"per": per, "pixels": pixels, "o": o, "cli": args}
         ctx.case(case, nontrivial=True, kind="cli")
@@ -642,6 +893,7 @@ def run(ctx):
                             "expected": [None if x != x else float(x) for x in wref]}, None)
 
     audit(ctx, tmp, counters)
+    cli_grid(ctx, tmp, rng, counters, thorough, exprs, pend)
 
     # ------------------------------------------------------------ model evaluation + comparison
     vals = C.coq_eval(G.IMPORTS, exprs, tmpdir=tmp / "model", shard=30, jobs=4, timeout=600)
@@ -704,6 +956,9 @@ class _Collect:
 
 
 def replay(ctx, case):
+    if case.get("cli_grid"):
+        res, _ = grid_one(case, ctx.tmp)
+        return res is True or res == "fragile"
     if "audit" in case:
         col = _Collect()
         audit(col, ctx.tmp, {"audit": 0})
